@@ -44,6 +44,7 @@ func runC19(c *Ctx) {
 		}
 	}
 	ruleGuardedMaps(c, "R19.5", routing)
+	ruleRoutingRemovedForRegisteredProcess(c, "R19.6")
 }
 
 func isProtoReqParam(p *ssa.Parameter) bool {
@@ -897,4 +898,98 @@ func ruleStrictRequestParsing(c *Ctx, rule string) {
 		}
 	}
 	c.Floor(rule, "request identifier decodes in handler/http", n, 2)
+}
+
+// R19.6: routing entries are taken down only for a process that was looked up in the routing table. RemoveBeaconProcess
+// and RemoveBeaconHandler delete the entries keyed by the chain hash of the process's group, without asking whose
+// entries they are; a process that was never registered under that hash (one being loaded, a clone of another chain's
+// files) would take down the entries of the chain that is.
+func ruleRoutingRemovedForRegisteredProcess(c *Ctx, rule string) {
+	c.ranRules[rule] = true
+	n := 0
+	var fromTable func(v ssa.Value, d int) (bool, string)
+	fromTable = func(v ssa.Value, d int) (bool, string) {
+		if d > 4 {
+			return false, "too deep"
+		}
+		os := Origins(v)
+		table := hasOrigin(os, func(o Origin) bool {
+			return (o.Kind == "field" && strings.HasSuffix(o.Name, "DrandDaemon.beaconProcesses")) || (o.Kind == "lookup" && strings.HasSuffix(o.Name, ".beaconProcesses"))
+		})
+		for _, o := range os {
+			switch o.Kind {
+			case "call":
+				// a lookup helper: everything it returns is read from the table
+				good := false
+				var call *ssa.Call
+				switch x := o.Val.(type) {
+				case *ssa.Call:
+					call = x
+				case *ssa.Extract:
+					call, _ = x.Tuple.(*ssa.Call)
+				}
+				if call != nil {
+					if f := staticCallee(call); f != nil && len(f.Blocks) > 0 && strings.HasPrefix(fnPkgPath(f), modPath) {
+						good = true
+						for _, leaf := range returnLeaves(f, 0) {
+							if isNilConst(leaf.v) {
+								continue
+							}
+							if ok, _ := fromTable(leaf.v, d+1); !ok {
+								good = false
+							}
+						}
+					}
+				}
+				if !good {
+					return false, "the process comes from " + strings.ReplaceAll(o.Name, modPath+"/", "")
+				}
+				table = true
+			case "param":
+				p, _ := o.Val.(*ssa.Parameter)
+				if p == nil {
+					return false, "parameter"
+				}
+				pf := p.Parent()
+				idx := -1
+				for i, q := range pf.Params {
+					if q == p {
+						idx = i
+					}
+				}
+				for _, e := range c.P.Callers(pf) {
+					if e.Site == nil || isControlFn(e.Caller.Func) {
+						continue
+					}
+					if args := callArgs(e.Site); idx < len(args) {
+						if ok, why := fromTable(args[idx], d+1); !ok {
+							return false, why + " (in " + fnShort(e.Caller.Func) + ")"
+						}
+					}
+				}
+				table = true
+			}
+		}
+		if !table {
+			return false, "the process is not read from DrandDaemon.beaconProcesses: " + strings.Join(originStrings(os), ",")
+		}
+		return true, "read from DrandDaemon.beaconProcesses"
+	}
+	for _, root := range c.P.SubjectFns() {
+		if isControlFn(root) || root.Parent() != nil {
+			continue
+		}
+		for _, fn := range withClosures(root) {
+			for _, ci := range callsIn(fn, func(ci ssa.CallInstruction) bool {
+				nm := calleeName(ci)
+				return strings.HasSuffix(nm, "internal/core.DrandDaemon).RemoveBeaconProcess") || strings.HasSuffix(nm, "internal/core.DrandDaemon).RemoveBeaconHandler")
+			}) {
+				n++
+				args := ci.Common().Args
+				ok, why := fromTable(args[len(args)-1], 0)
+				c.Ok(rule, fnShort(fn)+" takes down routing entries of a process it looked up", shortPos(c.P, ci), ok, why)
+			}
+		}
+	}
+	c.Floor(rule, "calls taking down routing entries", n, 2)
 }
